@@ -22,6 +22,9 @@ import (
 type ReadOp struct {
 	Kind string `json:"k"`
 	N    int    `json:"n,omitempty"`
+	// As: the error value an err/hard_err outcome fails with: "" = a distinct injected error,
+	// "ueof" = io.ErrUnexpectedEOF (what a truncated gzip or TLS stream returns)
+	As string `json:"as,omitempty"`
 }
 
 // InjectedErr is the error a scripted reader/sink/predicate fault delivers.
@@ -134,7 +137,10 @@ func (r *SimReader) read(p []byte) (int, error) {
 		before := r.pos
 		n := give(op.N)
 		r.nerr++
-		e := &InjectedErr{ID: r.nerr}
+		var e error = &InjectedErr{ID: r.nerr}
+		if op.As == "ueof" {
+			e = io.ErrUnexpectedEOF
+		}
 		if r.FirstErr == nil {
 			r.FirstErr, r.FirstErrAt, r.FirstErrWith = e, before, r.pos
 		}
